@@ -97,8 +97,23 @@ func compileVariant(w *W, tree *Node, src string, cfg CaseCfg, label string) (*V
 func optVariants(w *W, r *rand.Rand, tree *Node, undefined bool, events int, withDirectives, withCosts bool) []*Variant {
 	src := tree.Prefix()
 	var vs []*Variant
+	// in undefined-variable mode a third of the programs registers a random half of the names anyway
+	// (keyed and undefined variables side by side)
+	var mixedNames []string
+	if undefined && r.Intn(3) == 0 {
+		order, _ := tree.Vars()
+		for _, n := range order {
+			if r.Intn(2) == 0 {
+				mixedNames = append(mixedNames, n)
+			}
+		}
+	}
 	for _, o := range allOptSets() {
 		cfg := cfgFor(tree, o, undefined)
+		if mixedNames != nil {
+			cfg.VarNames = mixedNames
+			cfg.RegisterAlways = true
+		}
 		cfg.Events = events
 		if v, ok := compileVariant(w, tree, src, cfg, "options"); ok {
 			vs = append(vs, v)
@@ -109,6 +124,10 @@ func optVariants(w *W, r *rand.Rand, tree *Node, undefined bool, events int, wit
 				base ^= OptSet(1 << uint(r.Intn(4)))
 			}
 			dcfg := cfgFor(tree, base, undefined)
+			if mixedNames != nil {
+				dcfg.VarNames = mixedNames
+				dcfg.RegisterAlways = true
+			}
 			dcfg.Events = events
 			eff := o
 			dcfg.Directive = &eff
@@ -126,6 +145,10 @@ func optVariants(w *W, r *rand.Rand, tree *Node, undefined bool, events int, wit
 		if withCosts && o&OptRO != 0 {
 			for _, path := range []bool{false, true} {
 				ccfg := cfgFor(tree, o, undefined)
+				if mixedNames != nil {
+					ccfg.VarNames = mixedNames
+					ccfg.RegisterAlways = true
+				}
 				ccfg.Events = events
 				ccfg.Costs = randomCosts(r, tree, path)
 				label := "costs"
